@@ -474,9 +474,9 @@ def t_accepts(cfg, x, mn, mx, v, F):
                               z3.fpEQ(z3.fpRoundToIntegral(z3.RNE(), a), z3.fpRoundToIntegral(z3.RNE(), e)),
                               z3.fpEQ(v, x)))
     if has_min:
-        conj.append(z3.Not(z3.fpLT(v, mn)))
+        conj.append(z3.fpGEQ(v, mn))      # "lies within min/max": a NaN lies within nothing
     if has_max:
-        conj.append(z3.Not(z3.fpGT(v, mx)))
+        conj.append(z3.fpLEQ(v, mx))
     return z3.And(*conj) if conj else z3.BoolVal(True)
 
 
@@ -601,9 +601,9 @@ def explore_visit_float(cfg, eb=11, sb=53, z3_timeout=60, budget_s=1e9):
                     if isinstance(e, VE.ValueValidationError):
                         checks.append(("value-error-true", t_accepts((True, False, False, cfg[3]), x, mn, mx, v, F)))
                     elif isinstance(e, VE.MinValueValidationError):
-                        checks.append(("min-error-true", z3.Not(z3.fpLT(v, mn))))
+                        checks.append(("min-error-true", z3.fpGEQ(v, mn)))
                     elif isinstance(e, VE.MaxValueValidationError):
-                        checks.append(("max-error-true", z3.Not(z3.fpGT(v, mx))))
+                        checks.append(("max-error-true", z3.fpLEQ(v, mx)))
                     else:
                         checks.append(("unexpected-error-kind", z3.BoolVal(True)))
             except UnwindingFailure:
@@ -656,9 +656,9 @@ def replay_visit_float(cfg, model):
         else:
             a, e = v * 10 ** p, x * 10 ** p
             want = (round(a) == round(e)) if (_m.isfinite(a) and _m.isfinite(e)) else (v == x)
-    if has_min and v < mn:
+    if has_min and not (v >= mn):
         want = False
-    if has_max and v > mx:
+    if has_max and not (v <= mx):
         want = False
     return acc == want, "validate(%r, %r): accepted=%s, semantics say %s" % (s, v, acc, want)
 
